@@ -39,7 +39,7 @@ ASSUMPTIONS = ["code outside the traced files is atomic between two pre-emption 
                "request loss/duplication not injected: no property promises idempotent retry",
                "sampling over schedules, not proof; the single-pre-emption sweep is complete only for the sampled request pairs"]
 FAULT_KINDS = ["preemption", "client_disconnect", "step_exception", "invalid_request", "state_store_error"]
-PROBES = ["view_and_body_on_different_threads", "save_failed_during_stepping_request", "exception_inside_a_step", "time_passes_while_stream_held", "held_stream", "late_close_of_finished_stream", "session_restarted_during_choreography", "stepping_without_session", "invalid_request_sent", "disconnect_mid_stream", "exception_mid_request",
+PROBES = ["instance_restored_during_choreography", "stream_dropped_before_first_chunk", "view_and_body_on_different_threads", "save_failed_during_stepping_request", "exception_inside_a_step", "time_passes_while_stream_held", "held_stream", "late_close_of_finished_stream", "session_restarted_during_choreography", "stepping_without_session", "invalid_request_sent", "disconnect_mid_stream", "exception_mid_request",
           "refused_while_locked", "stream_completed", "preempted_inside_run_step"]
 EXHAUSTIVE = {"quick": False, "thorough": False}
 
@@ -243,6 +243,18 @@ def gen_choreo(rng):
             acts.append({"a": "req", "kind": rng.choice(["end_session", "begin_session"])})
         elif r < 0.72:
             acts.append({"a": "req", "kind": rng.choice(["results", "keep_alive"])})
+        elif r < 0.74 and not [h for h, st in handles.items() if st == "open"]:
+            acts.append({"a": "open_drop"})
+        elif r < 0.76 and not [h for h, st in handles.items() if st == "open"]:
+            acts.append({"a": "req", "kind": "restore"})
+            if n_handles < 3 and rng.random() < 0.7:
+                # ... and the first stepping request after the restore is a stream that is held while others knock
+                h = "s%d" % n_handles
+                n_handles += 1
+                handles[h] = "open"
+                acts.append({"a": "open", "h": h})
+                acts.append({"a": "read", "h": h, "n": rng.choice([1, 2, 3])})
+                acts.append({"a": "req", "kind": rng.choice(["run_step", "run_steps"]), "n": 2})
         elif r < 0.79 and sum(1 for a in acts if a["a"] == "advance") < 3:
             acts.append({"a": "advance", "us": rng.choice(ADVANCES_US)})
         else:
@@ -368,6 +380,29 @@ def execute_choreo(case):
                     if in_progress():
                         res.probe("time_passes_while_stream_held")
                     continue
+                if a["a"] == "open_drop":
+                    # the client is gone before the first byte: the WSGI server closes the response iterable without ever
+                    # pulling from it (the test client always pre-fetches one chunk, so the WSGI callable is driven directly)
+                    from werkzeug.test import EnvironBuilder
+                    prog = in_progress()
+                    eb = EnvironBuilder(path="/%s/stream-steps" % inst, method="POST", json={"settings": {}})
+                    env = eb.get_environ()
+                    got = {}
+
+                    def start_response(status, headers, exc_info=None):
+                        got["status"] = int(status.split()[0])
+                    prev = w.cur_req
+                    w.cur_req = "drop%d" % n
+                    try:
+                        iterable = w.app(env, start_response)
+                        if hasattr(iterable, "close"):
+                            iterable.close()
+                    finally:
+                        w.cur_req = prev
+                        eb.close()
+                    res.probe("stream_dropped_before_first_chunk")
+                    res.fault("client_disconnect")
+                    continue
                 if a["a"] == "open":
                     prog = in_progress()
                     client = w.app.test_client()
@@ -457,7 +492,14 @@ def execute_choreo(case):
                 else:
                     kind = a["kind"]
                     prog = in_progress()
-                    if kind == "new_session":
+                    if kind == "restore":
+                        # the instance is brought back from its externalised state (whole-server load): the first stepping request
+                        # after that replays the session lazily - inside that request's lock
+                        if cfg.get("adapter") and has_session[0] and not prog and any(e[4] for e in w.step_events):
+                            rr = w.post("/load-state")
+                            resets += 1
+                            res.probe("instance_restored_during_choreography")
+                    elif kind == "new_session":
                         w.post("/%s/end-session" % inst)
                         w.post("/%s/begin-session" % inst, BEGIN)
                         has_session[0] = True
